@@ -158,8 +158,8 @@ class Device(BaseDevice):
         raise ValueError('cbounds infeasible; min possible sum (%f) is > max cbounds (%f)' % (self.lbounds[cbound[2]:cbound[3]].sum(), cbound[1]))
       if self.hbounds[cbound[2]:cbound[3]].sum() < cbound[0]:
         raise ValueError('cbounds infeasible; max possible sum (%f) is < min cbounds (%f)' % (self.hbounds[cbound[2]:cbound[3]].sum(), cbound[0]))
-      self.cbounds.append(cbound)
-    self._cbounds = []
+      accepted.append(cbound)
+    accepted = []
     if cbounds is None:
       self._cbounds = None
       return
@@ -170,6 +170,7 @@ class Device(BaseDevice):
     else:
       for cbound in cbounds:
         set_cbound(cbound)
+    self._cbounds = accepted
 
   @params.setter
   def params(self, params):
